@@ -341,6 +341,27 @@ theorem C08_src_minute_grid_downsample (reads : List (Int × Option Rat)) (hs : 
     exact_mod_cast h
   rw [this]
 
+/-- consecutive boundaries of a non-decreasing list are ordered -/
+theorem days_ordered : ∀ (bounds : List Int), bounds.Pairwise (· ≤ ·) → ∀ d ∈ days bounds, d.1 ≤ d.2
+  | [], _, d, hd => by simp [days] at hd
+  | [_], _, d, hd => by simp [days] at hd
+  | a :: b :: rest, hp, d, hd => by
+    simp only [days, List.mem_cons] at hd
+    rcases hd with rfl | hd
+    · exact (List.pairwise_cons.mp hp).1 b (by simp)
+    · exact days_ordered (b :: rest) (List.pairwise_cons.mp hp).2 d hd
+
+/-- **the whole sub-daily pipeline of the daily data class, minute by minute, is the closed form**: for every series on a
+strictly increasing index (missing readings dropped first, as the class does) and every non-decreasing list of day
+boundaries -/
+theorem C08_src_minute_grid_subdaily (reads : List (Int × Option Rat)) (hs : reads.Pairwise (fun a b => a.1 < b.1))
+    (bounds : List Int) (hb : bounds.Pairwise (· ≤ ·)) :
+    subDailyMin reads bounds = subDaily reads bounds := by
+  unfold subDailyMin subDaily downsampleDaily
+  apply List.map_congr_left
+  intro d hd
+  exact C08_src_minute_grid_downsample _ (hs.filter _) d.1 d.2 (days_ordered bounds hb d hd)
+
 /-- the minute-grid model on a concrete hourly meter: two readings of 6 and 3 over one hour each, then the closing stamp;
 the "day" [0, 90) holds the whole first reading and half of the second -/
 example : daySumMin (periods [(0, some 6), (60, some 3), (120, none)]) 0 90 = 6 + 3 / 2 ∧
